@@ -8,7 +8,7 @@ TLC:    exhaustive check of the bounded instances; every maximal behaviour is em
           thorough  the quick instance, and
                     MC_Sector_thorough.cfg   60 actions, length 3
                     MC_Sector_thorough2.cfg  20 actions, length 4
-                    MC_Sector_thorough3.cfg  all 296 actions of the instance, length 2
+                    MC_Sector_thorough3.cfg  all 310 actions of the instance, length 2
         flow terms: names A, B, products A*B, B*A, quotients A/B, B/A (A/B and B/A are different flows),
         a name with a numeric factor 2*A, A*2, A/2, 2/A, decorated names of another sector's variable
         OTHER__A, _7__A (not the local A: exclusions match the whole name); each under the sign / bracket spellings
